@@ -80,19 +80,37 @@ Proof.
   - rewrite app_nil_r. exact Hl.
 Qed.
 
-(** Every term of every hunk is a line-aligned slice of some input (true of line-level
-    merges: C03/C04 partition). *)
-Definition SlicesOf (files : list bytes) (hs : list (list (list N))) : Prop :=
-  forall h t, In h hs -> In t h -> exists f, In f files /\ AlignedSlice t f.
+(** Every line of every hunk term is a line of some input. True of line-level merges
+    (C03/C04 partition): conflict terms are line-aligned slices of the inputs, resolved hunks
+    are concatenations of line-aligned slices, possibly of different inputs. *)
+Definition LinesOf (files : list bytes) (hs : list (list (list N))) : Prop :=
+  forall h t l, In h hs -> In t h -> In l (lines t) -> exists f, In f files /\ In l (lines f).
 
 Theorem chooser_dominates files hs :
-  SlicesOf files hs -> Dominated (choose_marker_len files) hs.
+  LinesOf files hs -> Dominated (choose_marker_len files) hs.
 Proof.
   intros Hs. unfold choose_marker_len. split.
   - pose proof min_len_ge_2. lia.
-  - intros h t l k m Hh Ht Hl E. destruct (Hs h t Hh Ht) as [f [Hf Ha]].
-    pose proof (max_marker_len_ge files f l k m Hf (aligned_slice_lines t f l Ha Hl) E).
+  - intros h t l k m Hh Ht Hl E. destruct (Hs h t l Hh Ht Hl) as [f [Hf Hlf]].
+    pose proof (max_marker_len_ge files f l k m Hf Hlf E).
     pose proof increment_ge_2. lia.
+Qed.
+
+(** A term assembled from line-aligned slices of inputs consists of lines of inputs. *)
+Lemma concat_slices_lines files pieces l :
+  Forall (fun p => exists f, In f files /\ AlignedSlice p f) pieces ->
+  Forall lc (removelast pieces) ->
+  In l (lines (concat pieces)) -> exists f, In f files /\ In l (lines f).
+Proof.
+  induction pieces as [|p ps IH]; intros Hp Hlc Hl; [destruct Hl|].
+  inversion Hp as [|? ? [f [Hf Ha]] Hps]; subst. cbn [concat] in Hl.
+  destruct ps as [|p2 ps'].
+  - cbn [concat] in Hl. rewrite app_nil_r in Hl. exists f. split; [exact Hf|].
+    exact (aligned_slice_lines p f l Ha Hl).
+  - cbn [removelast] in Hlc. inversion Hlc as [|? ? Hlcp Hlcr]; subst.
+    rewrite lines_app in Hl by exact Hlcp. apply in_app_or in Hl. destruct Hl as [Hl|Hl].
+    + exists f. split; [exact Hf|exact (aligned_slice_lines p f l Ha Hl)].
+    + apply IH; assumption.
 Qed.
 
 (* ------------------------------------------------------------------ boolean reflection *)
@@ -236,56 +254,21 @@ Proof.
   - apply hunks_dominatedb_sound. exact H2.
 Qed.
 
-(* ------------------------------------------------------------------ aligned slices, boolean *)
+(* ------------------------------------------------------------------ lines of the inputs, boolean *)
 
-Lemma is_prefixb_spec : forall t f rest, is_prefixb t f = Some rest -> f = t ++ rest.
+Lemma lines_ofb_sound files t l :
+  lines_ofb files t = true -> In l (lines t) -> exists f, In f files /\ In l (lines f).
 Proof.
-  induction t as [|x t IH]; intros f rest H; cbn [is_prefixb] in H.
-  - injection H as ->. reflexivity.
-  - destruct f as [|y f]; [discriminate|]. destruct (N.eqb x y) eqn:E; [|discriminate].
-    apply N.eqb_eq in E. subst y. cbn [app]. f_equal. apply IH. exact H.
+  unfold lines_ofb. intros H Hl. rewrite forallb_forall in H. specialize (H l Hl).
+  unfold mem in H. apply existsb_exists in H. destruct H as [x [Hx E]].
+  apply bytes_eqb_eq in E. subst x. apply in_flat_map in Hx. exact Hx.
 Qed.
 
-Lemma aligned_slice_from_sound t : forall f s pre,
-  (s = true -> lc pre) ->
-  aligned_slice_from s t f = true ->
-  exists p q, f = p ++ t ++ q /\ lc (pre ++ p) /\ (lc t \/ q = []).
+Lemma lines_of_b_sound files hs :
+  forallb (forallb (lines_ofb files)) hs = true -> LinesOf files hs.
 Proof.
-  induction f as [|b f IH]; intros s pre Hs H; cbn [aligned_slice_from] in H.
-  - rewrite orb_false_r in H. apply andb_prop in H. destruct H as [-> H].
-    destruct (is_prefixb t []) as [rest|] eqn:E; [|discriminate].
-    apply is_prefixb_spec in E. exists [], rest. rewrite app_nil_r.
-    split; [exact E|]. split; [apply Hs; reflexivity|].
-    apply orb_prop in H. destruct H as [H|H]; [left; exact H|right].
-    destruct rest; [reflexivity|discriminate].
-  - apply orb_prop in H. destruct H as [H|H].
-    + apply andb_prop in H. destruct H as [-> H].
-      destruct (is_prefixb t (b :: f)) as [rest|] eqn:E; [|discriminate].
-      apply is_prefixb_spec in E. exists [], rest. rewrite app_nil_r.
-      split; [exact E|]. split; [apply Hs; reflexivity|].
-      apply orb_prop in H. destruct H as [H|H]; [left; exact H|right].
-      destruct rest; [reflexivity|discriminate].
-    + destruct (IH (N.eqb b LF) (pre ++ [b])) as [p [q [E [Hp Hq]]]].
-      * intros Eb. apply N.eqb_eq in Eb. subst b. apply lc_snoc.
-      * exact H.
-      * exists (b :: p), q. split; [cbn [app]; rewrite E; reflexivity|].
-        split; [|exact Hq]. rewrite <- app_assoc in Hp. exact Hp.
-Qed.
-
-Lemma aligned_sliceb_sound files t :
-  aligned_sliceb files t = true -> exists f, In f files /\ AlignedSlice t f.
-Proof.
-  unfold aligned_sliceb. intros H. apply existsb_exists in H. destruct H as [f [Hf H]].
-  exists f. split; [exact Hf|].
-  destruct (aligned_slice_from_sound t f true [] (fun _ => lc_nil) H) as [p [q [E [Hp Hq]]]].
-  exists p, q. auto.
-Qed.
-
-Lemma slices_b_sound files hs :
-  forallb (forallb (aligned_sliceb files)) hs = true -> SlicesOf files hs.
-Proof.
-  intros H h t Hh Ht. rewrite forallb_forall in H. specialize (H h Hh).
-  rewrite forallb_forall in H. apply aligned_sliceb_sound, H, Ht.
+  intros H h t l Hh Ht Hl. rewrite forallb_forall in H. specialize (H h Hh).
+  rewrite forallb_forall in H. exact (lines_ofb_sound files t l (H t Ht) Hl).
 Qed.
 
 (* ------------------------------------------------------------------ checker spec *)
